@@ -17,22 +17,81 @@ import (
 // fieldsStoredIn: fields of the receiver's struct that fn assigns (directly).
 func fieldsStoredIn(fn *ssa.Function) map[*types.Var]bool {
 	out := map[*types.Var]bool{}
-	if len(fn.Params) == 0 {
+	if len(fn.Params) == 0 && len(fn.FreeVars) == 0 {
 		return out
 	}
-	recv := fn.Params[0]
+	isRecv := func(v ssa.Value) bool {
+		v = stripConv(v)
+		if fn.Parent() == nil {
+			return len(fn.Params) > 0 && fn.Signature.Recv() != nil && v == ssa.Value(fn.Params[0])
+		}
+		// a closure of a method: the captured receiver
+		top := fn
+		for top.Parent() != nil {
+			top = top.Parent()
+		}
+		if top.Signature.Recv() == nil {
+			return false
+		}
+		rt := top.Signature.Recv().Type()
+		if fv, ok := v.(*ssa.FreeVar); ok && types.Identical(fv.Type(), rt) {
+			return true
+		}
+		// captured by reference: *s where s is the cell of the receiver
+		if u, ok := v.(*ssa.UnOp); ok && u.Op == token.MUL {
+			if fv, ok := u.X.(*ssa.FreeVar); ok {
+				if pt, ok := fv.Type().(*types.Pointer); ok && types.Identical(pt.Elem(), rt) {
+					return true
+				}
+			}
+		}
+		return false
+	}
+	// first-level field of the receiver that an address expression lies in
+	var topField func(addr ssa.Value) *types.Var
+	topField = func(addr ssa.Value) *types.Var {
+		for i := 0; i < 6; i++ {
+			switch x := addr.(type) {
+			case *ssa.FieldAddr:
+				if isRecv(x.X) {
+					return structField(x.X.Type(), x.Field)
+				}
+				addr = x.X
+			case *ssa.IndexAddr:
+				addr = x.X
+			default:
+				return nil
+			}
+		}
+		return nil
+	}
+	memo := map[*ssa.Function]map[int]map[*types.Var]bool{}
 	for _, b := range fn.Blocks {
 		for _, in := range b.Instrs {
-			st, ok := in.(*ssa.Store)
-			if !ok {
-				continue
-			}
-			fa, ok := st.Addr.(*ssa.FieldAddr)
-			if !ok || stripConv(fa.X) != ssa.Value(recv) {
-				continue
-			}
-			if fv := structField(fa.X.Type(), fa.Field); fv != nil {
-				out[fv] = true
+			switch x := in.(type) {
+			case *ssa.Store:
+				if fa, ok := x.Addr.(*ssa.FieldAddr); ok {
+					if fv := topField(fa); fv != nil {
+						out[fv] = true
+					}
+				}
+			case ssa.CallInstruction:
+				// the address of a nested struct field handed to a function that writes through it
+				sc := x.Common().StaticCallee()
+				if sc == nil || !isRepoPkgPath(fnPkgPath(sc)) || len(sc.Blocks) == 0 {
+					continue
+				}
+				fw := fieldWriters(sc, 2, memo)
+				for ai, a := range x.Common().Args {
+					if len(fw[ai]) == 0 {
+						continue
+					}
+					if fa, ok := a.(*ssa.FieldAddr); ok {
+						if fv := topField(fa); fv != nil {
+							out[fv] = true
+						}
+					}
+				}
 			}
 		}
 	}
@@ -235,8 +294,24 @@ func init() {
 							continue
 						}
 						ia, ok := st.Addr.(*ssa.IndexAddr)
-						if !ok || !derivedFromField(ia.X, tb) || !derivedFromField(st.Val, ab) {
+						if !ok || !derivedFromField(st.Val, ab) {
 							continue
+						}
+						if !derivedFromField(ia.X, tb) {
+							// a local list that becomes Table.Blocks afterwards
+							becomes := false
+							for _, b2 := range fn.Blocks {
+								for _, in2 := range b2.Instrs {
+									if st2, ok := in2.(*ssa.Store); ok {
+										if fa, ok := st2.Addr.(*ssa.FieldAddr); ok && structField(fa.X.Type(), fa.Field) == tb && stripConv(st2.Val) == stripConv(ia.X) {
+											becomes = true
+										}
+									}
+								}
+							}
+							if !becomes {
+								continue
+							}
 						}
 						key := fmt.Sprintf("%s|Table.Blocks[i]=asyncBlocks#%d", funcName(fn), n)
 						n++
@@ -355,70 +430,83 @@ func init() {
 			if err != nil {
 				return err
 			}
-			r.Analysed = 1
+			// Start and the helpers of the package it delegates to
+			start := fn
+			scope := samePkgReach(start, inlineDepth)
+			r.Analysed = len(scope)
 			n := 0
-			for _, b := range fn.Blocks {
-				for _, in := range b.Instrs {
-					st, ok := in.(*ssa.Store)
-					if !ok {
-						continue
-					}
-					ia, ok := st.Addr.(*ssa.IndexAddr)
-					if !ok {
-						continue
-					}
-					sl, ok := ia.X.Type().Underlying().(*types.Slice)
-					if !ok {
-						continue
-					}
-					ch, ok := sl.Elem().Underlying().(*types.Chan)
-					if !ok || !strings.HasSuffix(ch.Elem().String(), "objects.Diff") {
-						continue
-					}
-					key := fmt.Sprintf("%s|diffs[i]=…#%d", funcName(fn), n)
-					n++
-					what := "per-branch diff channel comes from DiffTables(…, WithEmitUnchangedRow())"
-					var call *ssa.Call
-					for x := range backward(st.Val, func(v ssa.Value) bool {
-						switch v.(type) {
-						case *ssa.Extract, *ssa.Phi, *ssa.ChangeType, *ssa.MakeInterface:
-							return true
+			for _, fn := range scope {
+				for _, b := range fn.Blocks {
+					for _, in := range b.Instrs {
+						st, ok := in.(*ssa.Store)
+						if !ok {
+							continue
 						}
-						return false
-					}) {
-						if c, ok := x.(*ssa.Call); ok {
-							if f := calleeFunc(c); f != nil && dt[f] {
-								call = c
-							} else if call == nil {
-								call = nil
+						ia, ok := st.Addr.(*ssa.IndexAddr)
+						if !ok {
+							continue
+						}
+						var elem types.Type
+						switch t := ia.X.Type().Underlying().(type) {
+						case *types.Slice:
+							elem = t.Elem()
+						case *types.Pointer:
+							if at, ok := t.Elem().Underlying().(*types.Array); ok {
+								elem = at.Elem() // append(diffs, ch) is lowered to a one-element array
 							}
 						}
-						if _, isMk := x.(*ssa.MakeChan); isMk {
-							call = nil
-							r.bad(key, p.Rel(st.Pos()), what, "a locally made channel is handed to mergeTables as a branch's diff: rows it does not report are treated as removed by that branch")
-							goto next
+						if elem == nil {
+							continue
 						}
-					}
-					if call == nil {
-						r.bad(key, p.Rel(st.Pos()), what, "the stored channel is not the result of diff.DiffTables")
-						goto next
-					}
-					{
-						hasEmit := false
-						for _, el := range variadicElems(call) {
-							if c, ok := stripConv(el).(*ssa.Call); ok {
-								if f := calleeFunc(c); f != nil && emit[f] {
-									hasEmit = true
+						ch, ok := elem.Underlying().(*types.Chan)
+						if !ok || !strings.HasSuffix(ch.Elem().String(), "objects.Diff") {
+							continue
+						}
+						key := fmt.Sprintf("%s|diffs[i]=…#%d", funcName(start), n)
+						n++
+						what := "per-branch diff channel comes from DiffTables(…, WithEmitUnchangedRow())"
+						var call *ssa.Call
+						for x := range backward(st.Val, func(v ssa.Value) bool {
+							switch v.(type) {
+							case *ssa.Extract, *ssa.Phi, *ssa.ChangeType, *ssa.MakeInterface:
+								return true
+							}
+							return false
+						}) {
+							if c, ok := x.(*ssa.Call); ok {
+								if f := calleeFunc(c); f != nil && dt[f] {
+									call = c
+								} else if call == nil {
+									call = nil
 								}
 							}
+							if _, isMk := x.(*ssa.MakeChan); isMk {
+								call = nil
+								r.bad(key, p.Rel(st.Pos()), what, "a locally made channel is handed to mergeTables as a branch's diff: rows it does not report are treated as removed by that branch")
+								goto next
+							}
 						}
-						if hasEmit {
-							r.ok(key, p.Rel(st.Pos()), what)
-						} else {
-							r.bad(key, p.Rel(st.Pos()), what, "DiffTables is called without WithEmitUnchangedRow: unchanged rows are not reported and mergeTables counts them as removed")
+						if call == nil {
+							r.bad(key, p.Rel(st.Pos()), what, "the stored channel is not the result of diff.DiffTables")
+							goto next
 						}
+						{
+							hasEmit := false
+							for _, el := range variadicElems(call) {
+								if c, ok := stripConv(el).(*ssa.Call); ok {
+									if f := calleeFunc(c); f != nil && emit[f] {
+										hasEmit = true
+									}
+								}
+							}
+							if hasEmit {
+								r.ok(key, p.Rel(st.Pos()), what)
+							} else {
+								r.bad(key, p.Rel(st.Pos()), what, "DiffTables is called without WithEmitUnchangedRow: unchanged rows are not reported and mergeTables counts them as removed")
+							}
+						}
+					next:
 					}
-				next:
 				}
 			}
 			return nil
@@ -1001,6 +1089,21 @@ func init() {
 					savers[obj] = true
 				}
 			}
+			// an unexported helper that delegates to one is one too (saveFetchedRefs → updateLocalRefs …)
+			for round := 0; round < 2; round++ {
+				for _, fn := range fetchPkg {
+					obj, ok := fn.Object().(*types.Func)
+					if fn.Parent() != nil || !ok || obj.Exported() {
+						continue
+					}
+					if len(callsTo(fn, savers)) > 0 {
+						savers[obj] = true
+					}
+					if len(callsTo(fn, fetchers)) > 0 {
+						fetchers[obj] = true
+					}
+				}
+			}
 			if len(fetchers) == 0 || len(savers) == 0 {
 				return &AnchorError{"object-fetching / ref-saving functions of cmd/wrgl/fetch"}
 			}
@@ -1026,6 +1129,12 @@ func init() {
 					}
 					key := callKey(fn, fc) + "|refs-saved"
 					what := "every successful return after the object fetch has saved the refs"
+					if blk[fc] {
+						// one helper does both: the obligation is placed inside it (C13-m decides the
+						// path through helpers and retry results)
+						r.okWhy(key, p.Rel(fc.Pos()), what, "the fetching helper is also the ref-saving helper; checked inside it")
+						continue
+					}
 					bad := false
 					for _, ret := range returnsOf(fn) {
 						v := retVal(ret, ei)
